@@ -12,7 +12,7 @@ import (
 )
 
 var serveExplain = map[string]string{
-	"C02": "Structural necessary conditions in the server's per-connection loop, decided for every path of the loop by exhaustive exploration of a finite abstraction (booleans, nil-ness, rule event bits): (R1) a request with 'Expect: 100-continue' whose body was not read (ExpectHandler / ContinueHandler rejection) is answered with Connection: close and never followed by another iteration; (R2) on every path from the handler to the next iteration the code has established, on the request that was actually served (not on a ctx swapped in by the timeout path), that there is no connection-backed body stream or that requestStream.fullyRead() is true - otherwise the close decision is true; the stream object is only released after that. (R3) a length-limited reader over the connection that is handed to a parser which may stop early (multipart pre-parse) is drained before success is reported; (R4) the flag behind fullyRead() for chunked bodies is raised only after the trailer section was read and its error examined, in every function that sets it; (R-pool) the pooled stream object starts clean: each of its fields (chunk remainder, byte count, end-of-body flag, declared length ...) is assigned on every path of its release or of its acquire function, so a body is never decoded with the leftovers of another connection's body. Not decided: the exact byte offset at which the next request starts for all inputs.",
+	"C02": "Structural necessary conditions in the server's per-connection loop, decided for every path of the loop by exhaustive exploration of a finite abstraction (booleans, nil-ness, rule event bits): (R1) a request with 'Expect: 100-continue' whose body was not read (ExpectHandler / ContinueHandler rejection) is answered with Connection: close and never followed by another iteration; (R2) on every path from the handler to the next iteration the code has established, on the request that was actually served (not on a ctx swapped in by the timeout path), that there is no connection-backed body stream or that requestStream.fullyRead() is true - otherwise the close decision is true; the stream object is only released after that. (R3) a length-limited reader over the connection that is handed to a parser which may stop early (multipart pre-parse) is drained before success is reported; (R4) the flag behind fullyRead() for chunked bodies is raised only after the trailer section was read and its error examined, in every function that sets it; (R-pool) the pooled stream object starts clean: each of its fields (chunk remainder, byte count, end-of-body flag, declared length ...) is assigned on every path of its release or of its acquire function, so a body is never decoded with the leftovers of another connection's body. (R-uar) after a call that gives the request stream held in a field back to its pool (releaseRequestStream, or a routine that passes the value on to it) no path reaches a use of a stream taken from that field before the field is assigned again - 'was the body read to its end' must be asked before the release. Not decided: the exact byte offset at which the next request starts for all inputs.",
 	"C10": "Structural necessary conditions of the keep-alive decision in the serve loop: (R1) the condition guarding SetConnectionClose depends (through phis, && / ||, and helper functions) on each documented source: DisableKeepalive, request and response Connection: close, MaxRequestsPerConn, CloseOnShutdown+stop, Expect/Continue rejection, unread streamed body; (R2) on every path: decision true => Connection: close is set on the response object that is written and no further iteration follows; decision false on a non-HTTP/1.1 request => Connection: keep-alive is set; (R2d) the loop is left after a written response, on the server's own decision, only when that response carried Connection: close; (R3) the decision does not read per-request bookkeeping from a ctx that was swapped in after the handler (timeout path); (R4) every comparison of a header value with the 'close' token - in the request and response head parsers and in the header setters - is made by a case-insensitive, list-aware matcher, never by an exact byte comparison, so 'Connection: Close' and 'keep-alive, close' count as close on both the server and the client side, and while a head is parsed a store to the close flag can only raise it (several Connection lines form one list); (R5) in the client transport the decision to pool a connection whose body is handed out as a stream is taken from a value computed when the response arrived - the boolean captured by the stream-close callback depends on the response's Connection: close - and not only from the caller-owned response header as it looks when the stream is closed. Not decided: what the matcher accepts as token separators, client side reuse beyond the parsed flag.",
 	"C11": "Structural necessary conditions of 'no state leaks between requests': (E7) every leaf field of Request, Response, RequestHeader, ResponseHeader, URI, Args, Cookie and RequestCtx is assigned (or known nil, or reset through its pointee) on every path of the type's reset method including callees, or is in a table of reasoned exemptions (scratch buffers, configuration, self pointers) - a newly added field is a violation until reset or exempted; (R-loop) every variable of the serve loop that survives an iteration is re-assigned before it is read in a later iteration on every path, or the loop provably ends; (R-reset) every path from the handler to the next iteration passes Request.Reset and Response.Reset; (R-ctx) every field of RequestCtx that a handler can set through an exported method and that the serve loop reads (hijack handler, no-response switch, timeout response) is cleared, found zero, or left behind with a replaced ctx on every path to the next request - neither Request.Reset nor Response.Reset touches them; (R-loop-owned, R-pool, R-scratch) the reasons given for exemptions are checked too: a field the serve loop owns is assigned by it before every handler dispatch, every field of a pooled helper object is assigned by its release or its acquire function, and no function uses the old content or length of a scratch buffer. Not decided: that getters return exactly what the current request sent.",
 	"C14": "The sequence of ConnState values the serve loop reports, decided on every path of the loop as an automaton: StateActive only follows New/Idle, StateIdle only follows Active, the handler and the response write happen in Active, an iteration that continues ends in Idle, and StateActive is only reported on a path on which a read of at least one byte succeeded; (R3) every function that runs the serve loop itself and reports states (ServeConn) reports StateNew before serving and, on every path to its return after StateNew was reported (served or turned away), exactly one terminal state - StateHijacked exactly when the loop returned errHijacked, StateClosed otherwise. Not decided: the reports made by the worker pool (C13.R2 decides its terminal action) and cross-goroutine ordering.",
@@ -59,6 +59,7 @@ func init() {
 				limitedReaderDrainRule(p, r)
 				streamConsumedRule(p, r)
 				pooledHelperRule(p, r, "requestStream")
+				streamNotUsedAfterRelease(p, r)
 			}
 		}})
 	}
@@ -1609,4 +1610,131 @@ func isServerDoneValue(v ssa.Value) bool {
 	}
 	fa, ok := c.Call.Args[0].(*ssa.FieldAddr)
 	return ok && typeNameOf(fa.X) == "Server" && fieldName(fa.X.Type(), fa.Field) == "done"
+}
+
+// streamNotUsedAfterRelease (C02.R-uar): a requestStream given back to its
+// pool has its position fields zeroed (and may already serve another body).
+// Whether a body was read to its end therefore has to be asked before the
+// stream is released: after a call that releases the stream held in a field -
+// releaseRequestStream itself, or a routine that passes the value on to it -
+// no path reaches a use (method call, field access) of a *requestStream taken
+// from that same field, unless the field was assigned in between.
+func streamNotUsedAfterRelease(p *Prog, r *Report) {
+	rel := p.Func("releaseRequestStream")
+	if rel == nil {
+		r.Undecided("R-uar", "releaseRequestStream", "not found")
+		return
+	}
+	// routines that release (a value derived from) one of their parameters
+	releasers := map[*ssa.Function]int{rel: 0}
+	for round := 0; round < 3; round++ {
+		for _, fn := range p.funcsIn("") {
+			if _, done := releasers[fn]; done || fn.Blocks == nil {
+				continue
+			}
+			allCalls(fn, func(b *ssa.BasicBlock, c ssa.CallInstruction) {
+				idx, ok := releasers[c.Common().StaticCallee()]
+				if !ok || idx >= len(c.Common().Args) {
+					return
+				}
+				for i, prm := range fn.Params {
+					if derivesFromValue(c.Common().Args[idx], prm) {
+						releasers[fn] = i
+					}
+				}
+			})
+		}
+	}
+	fieldOf := func(v ssa.Value) *types.Var {
+		seen := map[ssa.Value]bool{}
+		var walk func(v ssa.Value) *types.Var
+		walk = func(v ssa.Value) *types.Var {
+			if v == nil || seen[v] {
+				return nil
+			}
+			seen[v] = true
+			switch w := v.(type) {
+			case *ssa.TypeAssert:
+				return walk(w.X)
+			case *ssa.Extract:
+				return walk(w.Tuple)
+			case *ssa.ChangeInterface:
+				return walk(w.X)
+			case *ssa.MakeInterface:
+				return walk(w.X)
+			case *ssa.Phi:
+				for _, e := range w.Edges {
+					if f := walk(e); f != nil {
+						return f
+					}
+				}
+			case *ssa.UnOp:
+				if _, fv := loadedField(w); fv != nil {
+					return fv
+				}
+			}
+			return nil
+		}
+		return walk(v)
+	}
+	isStream := func(v ssa.Value) bool { return typeNameOf(v) == "requestStream" }
+	n := 0
+	for _, fn := range p.funcsIn("") {
+		for _, b := range fn.Blocks {
+			for _, in := range b.Instrs {
+				c, ok := in.(ssa.CallInstruction)
+				if !ok {
+					continue
+				}
+				idx, ok := releasers[c.Common().StaticCallee()]
+				if !ok || idx >= len(c.Common().Args) {
+					continue
+				}
+				fv := fieldOf(c.Common().Args[idx])
+				if fv == nil {
+					continue // a local or a parameter: the caller that stored it in a field is judged
+				}
+				n++
+				use := func(i ssa.Instruction) bool {
+					if i == in {
+						return false
+					}
+					var ops []ssa.Value
+					switch w := i.(type) {
+					case ssa.CallInstruction:
+						if len(w.Common().Args) > 0 {
+							ops = append(ops, w.Common().Args[0])
+						}
+						if w.Common().IsInvoke() {
+							ops = append(ops, w.Common().Value)
+						}
+					case *ssa.FieldAddr:
+						ops = append(ops, w.X)
+					}
+					for _, o := range ops {
+						if isStream(o) && fieldOf(o) == fv {
+							return true
+						}
+					}
+					return false
+				}
+				reassigned := func(i ssa.Instruction) bool {
+					st, ok := i.(*ssa.Store)
+					if !ok {
+						return false
+					}
+					_, f2 := fieldOfAddr(st.Addr)
+					return f2 == fv
+				}
+				hit, path := reachAvoiding(fn, in, use, reassigned, nil)
+				pos := in.Pos()
+				detail := ""
+				if hit != nil {
+					detail = "after " + calleeName(c) + " gave the stream held in " + fv.Name() + " back to its pool, " + p.Pos(hit.Pos()) + " still uses it: the released stream's position is zeroed, so 'was the body read to its end' is answered yes for a body that is still on the connection, the connection is kept, and the unread body bytes are parsed as the next request"
+				}
+				r.Check("R-uar", fmt.Sprintf("%s: the stream in %s is not used after %s released it", funcName(fn), fv.Name(), calleeName(c)), hit == nil, p.Pos(pos), detail, blocksString(p, path)...)
+			}
+		}
+	}
+	r.Floor("R-uar", "calls that release a stream held in a field", n, 3)
 }
